@@ -94,7 +94,7 @@ def run_case(case):
     hp = cli.H5(os.path.join(wd, "p.h5"))
     D0 = max(analyse(hp, steps, 0, b)[2] for b in range(len(pat)))
     if not D0 > 0:
-        return Outcome(True, False, cls, discard=True)
+        return Outcome(True, False, cls + ["no_pilot_wake"], discard=True)
     I = I0 * case["D"] / D0
     if I > 50.0:
         # the impedance is so weak for this bunch length (e.g. fully shielded CSR) that no sane current reaches the target
@@ -112,6 +112,13 @@ def run_case(case):
     k = max(2, prof.shape[0] // 10)
     stat = np.abs(prof[-k:] - prof[-1]).max() / prof[-1].max()
     if stat > 0.01:
+        if fam in ("collimator", "file") and case["D"] <= 0.5 and len(pat) == 1:
+            # a weak, purely resistive / smooth passive impedance far below any instability threshold: "has become
+            # stationary" is part of what the property presumes for it.  8 configured damping times without a stationary
+            # profile is then a failure of the relaxation itself (on the unchanged tree these families never fail to settle;
+            # round-9 seed C05i made most runs restless and hid behind the discard)
+            return Outcome(False, True, cls + ["not_stationary"], "a single bunch with a weak %s impedance (target distortion D=%.3f) has not become stationary after 8 configured damping times: profile still changing by %.3g of its maximum over the last tenth of the run (n=%d, steps=%d, it=%d, stencil %d%s)" %
+                           (fam, case["D"], stat, n, steps, case["it"], case["deriv"], ", clamped interpolation" if case.get("clamped") else ""), sig="c05:not_stationary")
         return Outcome(True, False, cls + ["not_stationary"], discard=True)
     dd = cfggen.derive(full)
     wref = reference_wake(h, dd)
